@@ -2585,7 +2585,9 @@ class ProvDocument(ProvBundle):
             if hasattr(source, "read"):
                 return serializer.deserialize(source, **args)
             else:
-                with open(source) as f:
+                # binary mode: serializations are UTF-8 (or, for XML, say what
+                # they are), never in the platform's default encoding
+                with open(source, "rb") as f:
                     return serializer.deserialize(f, **args)
 
 
